@@ -101,11 +101,6 @@ class Check:
         return [e for e in data.get('findings', []) if e.get('property') == self.pid]
 
     def finish(self) -> int:
-        # floors: a rule matching fewer sites than confirmed by hand must not pass vacuously
-        low = [(n, r) for n, r in self.rules.items() if r['instances'] < r['floor']]
-        if low:
-            msg = '; '.join(f"rule {n}: {r['instances']} instances < floor {r['floor']}" for n, r in low)
-            raise AnalysisError('instance floor not met (anchor moved or extractor blind): ' + msg)
         known = self._known()
         known_keys = {e['key']: e for e in known}
         new, hit = [], []
@@ -114,6 +109,12 @@ class Check:
         for f in hit:
             print(f'KNOWN-FINDING: property={self.pid} {f.rule} {f.module}::{f.function} :: '
                   f'{norm_ws(f.construct)[:160]} -- {f.message[:200]}')
+        # floors: a rule matching fewer sites than confirmed by hand must not pass vacuously.  A definite
+        # violation is still reported (exit 1); without one the run is an analysis error (exit 2).
+        low = [(n, r) for n, r in self.rules.items() if r['instances'] < r['floor']]
+        if low and not new:
+            msg = '; '.join(f"rule {n}: {r['instances']} instances < floor {r['floor']}" for n, r in low)
+            raise AnalysisError('instance floor not met (anchor moved or extractor blind): ' + msg)
         rc = 0
         replay_dir = OUT / 'replay'
         if new:
